@@ -72,7 +72,7 @@ def _tokens_exit_failures():
         return None
     out = {'exit.one_token': [], 'exit.ledger': [], 'exit.cheat_bytes': []}
     for r in rows:
-        if not (0 <= r['cheats'] <= r['my_tokens'] <= 1):   # requires old(self).state.inv()
+        if not (0 <= r['cheats'] and 0 <= r['my_tokens'] <= 1):   # requires old(self).state.inv()  (the true invariant)
             continue
         inp = 'top_level=%d my_tokens=%d cheats=%d children=%d' % (r['top_level'], r['my_tokens'], r['cheats'], r['children'])
         obs = dict(input=inp, observed=dict(ok=r['ok'], my_tokens_after=r['my_tokens_after'], cheats_after=r['cheats_after'],
@@ -81,13 +81,14 @@ def _tokens_exit_failures():
             for k in out:
                 out[k].append(dict(obs, clause='returned Err or panicked'))
             continue
-        if r['top_level'] == 0 and r['my_tokens_after'] + r['cheat_bytes'] != 1:
-            out['exit.one_token'].append(dict(obs, clause='my_tokens_after + cheat_bytes_written == 1'))
-        debt = 1 if (r['top_level'] == 0 and r['cheats_after'] == 0 and r['my_tokens_after'] == 0) else 0
-        if r['cheat_bytes'] != r['cheats_after'] + debt:
-            out['exit.cheat_bytes'].append(dict(obs, clause='cheat_bytes_written == cheats_after + (1 if leaving with nothing under an inherited jobserver)'))
-        if r['my_tokens_after'] + r['token_bytes'] != (r['my_tokens'] - r['cheats']) + r['children']:
-            out['exit.ledger'].append(dict(obs, clause='my_tokens_after + token_bytes_written == real_before + children'))
+        # real tokens held when leaving: what it had + tokens pre-created for abandoned children - what went back to the pipe
+        real_exit = (r['my_tokens'] - r['cheats']) + r['children'] - r['token_bytes']
+        if r['top_level'] == 0 and real_exit + r['cheat_bytes'] != 1:
+            out['exit.one_token'].append(dict(obs, clause='real tokens at exit + debt bytes written == 1'))
+        if real_exit == 1 and r['cheats'] == 0 and r['cheat_bytes'] != 0:
+            out['exit.cheat_bytes'].append(dict(obs, clause='no debt byte from a process that leaves with its one real token'))
+        if r['my_tokens_after'] != max(real_exit, 0) or r['my_tokens_after'] > 1:
+            out['exit.ledger'].append(dict(obs, clause='my_tokens_after == max(real tokens at exit, 0) <= 1'))
     return out
 
 
@@ -147,6 +148,103 @@ def _path_failures(probe):
     return out
 
 
+
+# ---------------------------------------------------------------- redo-ood against what redo-ifchange then does (real binaries; C17)
+def build_redo_bin():
+    """the real redo binary built from the current /repo working tree -> path of a bin dir with the 11 names, or None"""
+    if 'redo_bin' in _built:
+        return _built['redo_bin']
+    _built['redo_bin'] = None
+    try:
+        tdir = os.path.join(ROOT, 'build', 'redo-target')
+        env = dict(os.environ, CARGO_NET_OFFLINE='true')
+        p = subprocess.run(['cargo', 'build', '--offline', '--quiet', '--bin', 'redo', '--manifest-path', os.path.join(REPO, 'Cargo.toml'),
+                            '--target-dir', tdir], capture_output=True, text=True, env=env, timeout=1200)
+        exe = os.path.join(tdir, 'debug', 'redo')
+        if p.returncode != 0 or not os.path.exists(exe):
+            _built['err'] = p.stderr[-1500:]
+            return None
+        bindir = os.path.join(ROOT, 'build', 'redo-bin')
+        shutil.rmtree(bindir, ignore_errors=True)
+        os.makedirs(bindir)
+        for n in ('redo redo-always redo-ifchange redo-ifcreate redo-log redo-ood redo-sources redo-stamp redo-targets '
+                  'redo-unlocked redo-whichdo').split():
+            os.symlink(exe, os.path.join(bindir, n))
+        _built['redo_bin'] = bindir
+    except Exception as e:
+        _built['err'] = str(e)
+    return _built['redo_bin']
+
+
+def _ood_failures(limit=None):
+    """Bounded: every order of the names a/m/z on a three-target chain top -> mid -> leaf (leaf reads a source), built once,
+    then every subset of the three target files deleted, or the source edited.  Checked on the real binaries: redo-ood lists
+    nothing right after the full build; afterwards every known target that `redo-ifchange <t>` (run on a copy of the
+    project) really rebuilds is listed by redo-ood.  -> (failures, n_histories) or None"""
+    import itertools
+    bindir = build_redo_bin()
+    if not bindir:
+        return None
+    env = {k: v for k, v in os.environ.items() if not k.startswith('REDO') and k != 'MAKEFLAGS'}
+    env['PATH'] = bindir + ':' + env.get('PATH', '')
+    work = tempfile.mkdtemp(prefix='redo-verif-ood.', dir='/var/tmp')
+    fails, n = [], 0
+
+    def run(cmd, cwd):
+        return subprocess.run(cmd, cwd=cwd, env=env, capture_output=True, text=True, timeout=60)
+    try:
+        for names in itertools.permutations(['a', 'm', 'z']):
+            top, mid, leaf = names
+            ops = [('delete', sub) for k in range(0, 4) for sub in itertools.combinations(names, k)] + [('edit', ())]
+            for op, arg in ops:
+                if limit is not None and n >= limit:
+                    return fails, n
+                n += 1
+
+                def history(tag):
+                    """replay the history in a fresh directory (stamps hold inode and ctime, so a copy would look edited)"""
+                    proj = os.path.join(work, 'p%d%s' % (n, tag))
+                    os.makedirs(proj)
+                    open(os.path.join(proj, leaf + '.do'), 'w').write('redo-ifchange src\necho ran >>%s.ran\ncat src\n' % leaf)
+                    open(os.path.join(proj, mid + '.do'), 'w').write('redo-ifchange %s\necho ran >>%s.ran\ncat %s\n' % (leaf, mid, leaf))
+                    open(os.path.join(proj, top + '.do'), 'w').write('redo-ifchange %s\necho ran >>%s.ran\ncat %s\n' % (mid, top, mid))
+                    open(os.path.join(proj, 'src'), 'w').write('v1\n')
+                    r = run(['redo', top], proj)
+                    if r.returncode != 0:
+                        return None, None
+                    fresh = [l for l in run(['redo-ood'], proj).stdout.split() if l]
+                    if op == 'delete':
+                        for t in arg:
+                            os.unlink(os.path.join(proj, t))
+                    else:
+                        open(os.path.join(proj, 'src'), 'w').write('v2 longer\n')
+                    return proj, fresh
+                hist = 'chain %s -> %s -> %s -> src; redo %s' % (top, mid, leaf, top)
+                hist += ('; rm ' + ' '.join(arg) if arg else '') if op == 'delete' else '; edit src'
+                proj, fresh = history('')
+                if proj is None:
+                    continue
+                if fresh:
+                    fails.append(dict(input='chain %s -> %s -> %s -> src; redo %s; redo-ood' % (top, mid, leaf, top), observed=fresh,
+                                      clause='redo-ood lists nothing right after a successful full build'))
+                listed = set(l for l in run(['redo-ood'], proj).stdout.split() if l)
+                shutil.rmtree(proj, ignore_errors=True)
+                for t in names:
+                    cp, _ = history('.' + t)
+                    if cp is None:
+                        continue
+                    ranf = os.path.join(cp, t + '.ran')
+                    before = open(ranf).read().count('ran') if os.path.exists(ranf) else 0
+                    run(['redo-ifchange', t], cp)
+                    after = open(ranf).read().count('ran') if os.path.exists(ranf) else 0
+                    shutil.rmtree(cp, ignore_errors=True)
+                    if after > before and t not in listed:
+                        fails.append(dict(input=hist + '; redo-ood; redo-ifchange ' + t, observed='redo-ood listed %s; %s.do ran' % (sorted(listed), t),
+                                          clause='redo-ood lists every known target that a following redo-ifchange of it rebuilds'))
+    finally:
+        shutil.rmtree(work, ignore_errors=True)
+    return fails, n
+
 # ---------------------------------------------------------------- interface used by run.py
 def search(prop, violations, tier, seed):
     """attach a concrete failing input to a reported violation, if a probe covers its function"""
@@ -202,6 +300,13 @@ def conformance(prop, unit_names, pins_changed, labels_props):
                     out.append(dict(oid='%s/%s/%s' % (unit, fn_, label), msg='contract clause fails on the real code for a concrete input (probe %s)' % probe_,
                                     where=REPO + where, site=None, text=hits[0]['clause'], rendered=json.dumps(hits[:6], indent=1),
                                     inputs=[h['input'] for h in hits], fn=fn_, label=label, props=props))
+    if 'queries' in unit_names and prop == 'C17':
+        r = _ood_failures()
+        if r and r[0]:
+            hits = r[0]
+            out.append(dict(oid='queries/ood_list/ood.lists_every_definitely_stale_target', msg='clause fails on the real binaries for a concrete history (bounded probe ood, %d histories)' % r[1],
+                            where=REPO + '/src/bin/redo/ood.rs:run', site=None, text=hits[0]['clause'], rendered=json.dumps(hits[:6], indent=1),
+                            inputs=[h['input'] for h in hits], fn='ood_list', label='ood.lists_every_definitely_stale_target', props=['C17']))
     if any(p.endswith('::deps') or p.endswith('::zap_deps1') or p.endswith('::zap_deps2') or p.endswith('::add_dep') for p in pins_changed):
         f = _deps_failures()
         if f:
@@ -217,6 +322,17 @@ BOUNDED = {'C15': ('normpath', 'relpath'), 'C12': ('locks',)}
 def bounded(prop, unit_names, labels_props):
     """bounded stand-ins run next to the proof (labelled bounded in the evidence): -> (failures, notes)"""
     out, notes = [], []
+    if prop == 'C17' and 'queries' in unit_names and os.environ.get('VERIF_TIER_EFFECTIVE') == 'thorough':
+        r = _ood_failures()
+        if r is None:
+            notes.append('bounded probe ood: could not be built or run (nothing concluded from it)')
+        else:
+            notes.append('bounded probe ood: %d histories on the real binaries (3-target chains, every name order, every deletion subset / a source edit), %d failure(s) [bounded, not counted as proved]' % (r[1], len(r[0])))
+            if r[0]:
+                hits = r[0]
+                out.append(dict(oid='queries/ood_list/ood.lists_every_definitely_stale_target', msg='clause fails on the real binaries for a concrete history (bounded probe ood)',
+                                where=REPO + '/src/bin/redo/ood.rs:run', site=None, text=hits[0]['clause'], rendered=json.dumps(hits[:6], indent=1),
+                                inputs=[h['input'] for h in hits], fn='ood_list', label='ood.lists_every_definitely_stale_target', props=['C17']))
     for unit, probe_, fn_, where in PROBED:
         if unit not in BOUNDED.get(prop, ()) or unit not in unit_names:
             continue
